@@ -16,12 +16,20 @@ KEYS = ["goodwe.modbus._modbus_checksum"] + ENC + CMDS
 
 
 def units(tier):
+    from . import C04
+    # "changes with every transmission" is a statement about the transport too: every transmission must send the result
+    # of a request_bytes() call of its own (send_request segments of the state machine, obligation tagged C03)
+    sends = [u for u in C04.protocol_units(tier) if "send_request" in u[4]]
     return (contract_units(SIDECARS, KEYS, tier) + bv_units(SIDECARS, KEYS[0], (0,), tier)
-            + diff_units(SIDECARS, [KEYS[0]] + ENC + CMDS[:1], tier))
+            + diff_units(SIDECARS, [KEYS[0]] + ENC + CMDS[:1], tier) + sends)
+
+
+def replay(vc, unit):
+    return replay_protocol(vc, unit) if "send_request" in vc["name"].split("/")[0] else None
 
 
 INFO = {
-    "trusted_base": [TB["T1"], TB["T2"], TB["T3"]],
-    "assumptions": [],
+    "trusted_base": [TB["T1"], TB["T2"], TB["T3"], TB["T4"], TB["T5"]],
+    "assumptions": ["the transport segments see the command in flight through its interface (request_bytes() returns the frame to send now); that the real Modbus/TCP request_bytes() stamps a new non-zero id is the contract proved for it in this check"],
     "undecided_clauses": [],
 }
